@@ -2828,25 +2828,32 @@ class Env(cabc.MutableMapping):
         """
         old = {}
         local = self._d._local
-        # single positional argument should be a dict-like object
-        if other is not None:
-            for k, v in other.items():
-                old[k] = self._capture_for_swap(k, local)
-                self._set_item(k, v, thread_local=True)
-        # kwargs could also have been sent in
-        for k, v in kwargs.items():
-            old[k] = self._capture_for_swap(k, local)
-            self._set_item(k, v, thread_local=True)
-
-        if overlay is not None:
-            self._overlay_stack.append(overlay)
+        pushed = False
         exception = None
+        # The values are set inside the ``try``: if one of them is rejected
+        # (validation/conversion error) the ones already set are put back.
         try:
+            # single positional argument should be a dict-like object
+            if other is not None:
+                for k, v in other.items():
+                    if k not in old:
+                        old[k] = self._capture_for_swap(k, local)
+                    self._set_item(k, v, thread_local=True)
+            # kwargs could also have been sent in (a key given both ways is
+            # restored to what it was before the swap, not to ``other[k]``)
+            for k, v in kwargs.items():
+                if k not in old:
+                    old[k] = self._capture_for_swap(k, local)
+                self._set_item(k, v, thread_local=True)
+
+            if overlay is not None:
+                self._overlay_stack.append(overlay)
+                pushed = True
             yield self
         except Exception as e:
             exception = e
         finally:
-            if overlay is not None:
+            if pushed:
                 self._overlay_stack.pop()
             # restore the values
             for k, v in old.items():
